@@ -44,6 +44,7 @@ fn main() {
                 "C05" => run_crash(&args[3]),
                 "C06" => run_sched(&args[3]),
                 "C11" => run_cfg(&args[3]),
+                "C20" => run_c20(&args[3]),
                 _ => run_hx(&args[2], &args[3]),
             }
         }
@@ -391,9 +392,70 @@ fn run_fault(tier: &str) -> i32 {
     exit
 }
 
+/// C20 = history exploration (directory listing oracle) + every recovered crash image must be free of leftovers.
+fn run_c20(tier: &str) -> i32 {
+    let (max_wall, _) = registry::caps(tier);
+    // reserve a slice of the budget for the crash images
+    let crash_budget = if tier == "quick" { 8.0 } else { 120.0 };
+    std::env::set_var("VERIF_MAX_WALL_S", format!("{}", (max_wall - crash_budget).max(10.0)));
+    let rc = run_hx("C20", tier);
+    std::env::remove_var("VERIF_MAX_WALL_S");
+    if rc == 2 {
+        return 2;
+    }
+    let o = crash::run(tier, threads(), crash_budget, true);
+    let mut exit2 = false;
+    for m in o.machinery.iter().take(10) {
+        eprintln!("MACHINERY: {m}");
+        exit2 = true;
+    }
+    let mut items = vec![];
+    let mut seen = std::collections::BTreeSet::new();
+    for f in &o.found {
+        if !seen.insert(f.sig.clone()) {
+            continue;
+        }
+        let r1 = crash::replay(f);
+        let r2 = crash::replay(f);
+        if r1 != r2 || !r1.starts_with("VIOLATION") {
+            eprintln!("MACHINERY: crash-leftover case {} did not replay deterministically ({r1} / {r2})", f.sig);
+            exit2 = true;
+            continue;
+        }
+        items.push((f.sig.clone(), f.msg.clone(), serde_json::to_value(f).unwrap()));
+    }
+    let (exit, n_viol, n_known) = report("C20", items);
+    let _ = std::fs::remove_dir_all(hx::scratch_root());
+    // extend the evidence file the hx part has just written
+    let p = evidence::verif_root().join("evidence/C20.json");
+    if let Ok(s) = std::fs::read_to_string(&p) {
+        if let Ok(mut v) = serde_json::from_str::<serde_json::Value>(&s) {
+            v["coverage"]["crash_images"] = serde_json::json!({
+                "histories": o.histories, "crash_points": o.cuts, "distinct_images": o.images, "images_checked": o.images_checked,
+                "images_without_leftovers": o.ok_after, "capped": o.capped, "known_findings_matched": n_known,
+                "rule": "every crash image of the C05 enumeration is recovered and the directory must then hold only files the recovered version names",
+            });
+            v["violations"] = serde_json::json!(v["violations"].as_i64().unwrap_or(0) + n_viol);
+            if o.capped {
+                v["coverage"]["capped"] = serde_json::json!(true);
+                v["coverage"]["exhaustive"] = serde_json::json!(false);
+            }
+            let _ = std::fs::write(&p, serde_json::to_string_pretty(&v).unwrap());
+        }
+    }
+    eprintln!("[crash C20 {tier}] images={} checked={} leftover_violations={n_viol} capped={}", o.images, o.images_checked, o.capped);
+    if exit2 {
+        2
+    } else if rc == 1 || exit == 1 {
+        1
+    } else {
+        0
+    }
+}
+
 fn run_crash(tier: &str) -> i32 {
     let (max_wall, _) = registry::caps(tier);
-    let o = crash::run(tier, threads(), max_wall);
+    let o = crash::run(tier, threads(), max_wall, false);
     let mut exit2 = false;
     for m in o.machinery.iter().take(10) {
         eprintln!("MACHINERY: {m}");
